@@ -456,6 +456,63 @@ def fuzz_deflate(rng):
 # ---------------------------------------------------------------------------------------------------------
 # sc_puff on raw deflate streams
 # ---------------------------------------------------------------------------------------------------------
+# length / distance tables of RFC 1951 (written out here independently of sc_puff.c and of the model)
+LEN_BASE = [3, 4, 5, 6, 7, 8, 9, 10, 11, 13, 15, 17, 19, 23, 27, 31, 35, 43, 51, 59, 67, 83, 99, 115, 131, 163, 195, 227, 258]
+LEN_EXTRA = [0, 0, 0, 0, 0, 0, 0, 0, 1, 1, 1, 1, 2, 2, 2, 2, 3, 3, 3, 3, 4, 4, 4, 4, 5, 5, 5, 5, 0]
+DIST_BASE = [1, 2, 3, 4, 5, 7, 9, 13, 17, 25, 33, 49, 65, 97, 129, 193, 257, 385, 513, 769, 1025, 1537, 2049, 3073, 4097, 6145, 8193, 12289, 16385, 24577]
+DIST_EXTRA = [0, 0, 0, 0, 1, 1, 2, 2, 3, 3, 4, 4, 5, 5, 6, 6, 7, 7, 8, 8, 9, 9, 10, 10, 11, 11, 12, 12, 13, 13]
+
+
+def fixed_litlen(w, sym):
+    if sym < 144:
+        w.code(0x30 + sym, 8)
+    elif sym < 256:
+        w.code(0x190 + sym - 144, 9)
+    elif sym < 280:
+        w.code(sym - 256, 7)
+    else:
+        w.code(0xc0 + sym - 280, 8)
+
+
+def one_match_stream(prefix, lsym, lextra, dsym, dextra):
+    """a stored block holding `prefix` (not final) followed by a final fixed block with ONE match and the end-of-block code"""
+    w = BitWriter()
+    w.bits(0, 1); w.bits(0, 2)
+    if w.n:
+        w.out.append(w.acc); w.acc = 0; w.n = 0
+    n = len(prefix)
+    w.out += bytes([n & 255, n >> 8, (~n) & 255, ((~n) >> 8) & 255]) + prefix
+    w.bits(1, 1); w.bits(1, 2)
+    fixed_litlen(w, 257 + lsym)
+    w.bits(lextra, LEN_EXTRA[lsym])
+    w.code(dsym, 5)
+    w.bits(dextra, DIST_EXTRA[dsym])
+    fixed_litlen(w, 256)
+    return w.done()
+
+
+def table_cases(rng):
+    """every length code and every distance code of the tables of codes (), smallest and largest extra bits, at the case splits of the
+    proofs: distance = bytes written (accepted) / one more (-11); output space = needed (accepted) / one less (1)"""
+    res = []
+    for lsym in range(29):
+        for lextra in sorted({0, (1 << LEN_EXTRA[lsym]) - 1}):
+            ln = LEN_BASE[lsym] + lextra
+            pre = bytes(rng.getrandbits(8) for _ in range(5))
+            s = one_match_stream(pre, lsym, lextra, 2, 0)          # distance 3
+            res.append((0, 5 + ln, s, "table:len"))
+            res.append((0, 5 + ln - 1, s, "table:len-full"))
+            res.append((1, 0, s, "table:len-scan"))
+    for dsym in range(30):
+        for dextra in sorted({0, (1 << DIST_EXTRA[dsym]) - 1}):
+            dist = DIST_BASE[dsym] + dextra
+            for have in (dist, dist - 1):
+                pre = bytes((i * 131 + (i >> 8)) & 255 for i in range(have))
+                s = one_match_stream(pre, 1, 0, dsym, dextra)       # length 4
+                res.append((0, have + 4, s, "table:dist" if have == dist else "table:dist-far"))
+    return res
+
+
 def gen_puff_cases(ctx):
     rng = ctx.rng
     cases = []
@@ -506,6 +563,9 @@ def gen_puff_cases(ctx):
     for _ in range(1500 if ctx.quick else 20000):
         s, tag = fuzz_deflate(rng)
         add(rng.choice([0, 0, 0, 1]), rng.choice([0, 16, 300, 2000]), s, len(s), tag)
+    # the tables of codes (): every length and distance code at the boundaries of the tests around them
+    for nil, dl, s, tag in table_cases(rng):
+        add(nil, dl, s, len(s), tag)
     for hx_ in PUFF_REGRESSION:
         s = bytes.fromhex(hx_)
         for dl in (0, 1, 16, 1000):
@@ -534,6 +594,16 @@ def judge_puff(ctx, c, out):
     if not w:
         return ("puff-garbled", "empty output")
     if w[0] != "0":
+        # every error return is a documented code (sc_puff.c: 2, 1, -1 .. -11; theorem C07_puff_codes); a positive code leaves
+        # *destlen / *sourcelen alone, a negative one stores counters that do not exceed what was offered (harness markers)
+        try:
+            rc = int(w[0], 16)
+        except ValueError:
+            return ("puff-garbled", "unreadable return value %r" % w[0])
+        if not (rc in (1, 2) or -11 <= rc <= -1):
+            return ("puff-code:%s" % c["tag"], "sc_puff returned the undocumented code %d" % rc)
+        if len(w) > 1:
+            return ("puff-lengths:%s" % c["tag"], "sc_puff returned %d and left *destlen / *sourcelen in a state its documentation excludes: %s" % (rc, " ".join(w[1:])))
         return None
     dl, sl = int(w[1], 16), int(w[2], 16)
     ob = cc.unhx(w[3])
@@ -550,7 +620,7 @@ def judge_puff(ctx, c, out):
 
 # ---------------------------------------------------------------------------------------------------------
 def run(ctx):
-    cc.translate_and_prove(ctx, ["Codec"])
+    cc.translate_and_prove(ctx, ["Codec", "PuffC07", "DecodeC07"])
     exes = cc.build(ctx, static=True)
     dcases = gen_dec_cases(ctx)
     pcases = gen_puff_cases(ctx)
@@ -707,16 +777,24 @@ def run(ctx):
                        "streams of six strategies with every single-bit flip (short streams), every truncation, short destinations, scanning mode, all 256 first bytes, random garbage; "
                        "structure-aware DEFLATE header fuzz (block types 0..3, random HLIT/HDIST/HCLEN, code-length codes all-zero / single / two of length 1 / complete / over-subscribed / "
                        "incomplete / random, length sequences with repeat codes first and overshooting runs, tails of 0..800 random/zero/0xff bytes) directly and inside a zlib+armor wrapper; "
-                       "the regression inputs of zlib's contrib/puff. "
+                       "the regression inputs of zlib's contrib/puff; every length code and every distance code of the tables of codes () with smallest / largest extra bits "
+                       "behind a stored prefix, at distance = bytes written / one more and output space = needed / one less (aimed at the case splits of C07_gen_codes_*). "
                        "A case is non-trivial if its text has more than 3 bytes; distinct = distinct case lines" % (5 if ctx.quick else 7))
     ctx.cov["exhaustive"] = False
+    for gname in ("PuffC07", "DecodeC07"):
+        try:
+            st_ = json.load(open(os.path.join(vlib.COQ, "Gen", gname + ".status")))
+            ctx.notes["t1_" + gname] = "%d generated definitions (slices of the current source), tied to the models by the theorems C07_gen_*" % len(st_.get("infos", []))
+        except (OSError, ValueError):
+            pass
     ctx.notes["case_distribution"] = dist
     ctx.notes["verdicts"] = stats
     ctx.notes["zlib_vs_puff_acceptance_differences_logged"] = stats["accept_differs"]
     for c in dcases[:: max(1, len(dcases) // 4)][:4]:
         ctx.sample({"case": c["line"][:160], "tag": c["tag"]})
     ctx.sample({"case": pcases[len(pcases) // 2]["line"][:160], "tag": "puff:" + pcases[len(pcases) // 2]["tag"]})
-    ctx.cov["trusted_base"] = ["tools/c2g translator and clang-14's JSON AST for the index formulas inside the model (Gen/Codec.v)",
+    ctx.cov["trusted_base"] = ["tools/c2g translator and clang-14's JSON AST for the index formulas inside the model (Gen/Codec.v) and for the slices of sc_puff.c / cdecode.c / sc_io.c "
+                               "(Gen/PuffC07.v, Gen/DecodeC07.v), including the AST desugaring rules listed at the top of tools/c2g/groups_C07.py",
                                "memory safety and termination of the compiled C code are OBSERVED (ASan/UBSan, time limit), the theorems are about the instrumented model",
                                "zlib's uncompress (build with zlib): contract 'writes at most the given number of bytes', Section hypothesis of C07_decode_zlib_safe",
                                "Python's zlib/base64 modules as the independent reader of the oracle"]
